@@ -145,8 +145,19 @@ type faultRun struct {
 }
 
 func (r *faultRun) fail(sig, format string, a ...any) {
-	if (r.prop == "C17") != strings.HasPrefix(sig, "counts|") {
-		return // C17 judges the counts and Off under writer faults, C18 everything else
+	switch r.prop {
+	case "C17": // the counts and Off under writer faults
+		if !strings.HasPrefix(sig, "counts|") {
+			return
+		}
+	case "C04": // bytes handed out exactly once, in order, also when the writer fails in between
+		if !(strings.HasSuffix(sig, "not-prefix") || strings.HasSuffix(sig, "not-exactly-once")) {
+			return
+		}
+	default:
+		if strings.HasPrefix(sig, "counts|") {
+			return
+		}
 	}
 	full := r.prop + "|" + sig
 	var cs any
